@@ -69,11 +69,6 @@ def BookInv (s : St) : Prop :=
   (∀ r ∈ s.placements, r.status = .running → r.hasId = true ∧ ∃ w ∈ s.workers, w.id = r.worker) ∧
   (∀ w ∈ s.workers, w.assigned.Perm (s.runningOn w.id) ∧ w.running = w.assigned.length)
 
-/-- decidable form, used by the judge on dumped implementation states -/
-def bookInvB (s : St) : Bool :=
-  (s.placements.all fun r => r.status != .running || (r.hasId && s.workers.any fun w => w.id == r.worker)) &&
-  (s.workers.all fun w => w.assigned.isPerm (s.runningOn w.id) && w.running == w.assigned.length)
-
 theorem bookInvB_iff (s : St) : bookInvB s = true ↔ BookInv s := by
   simp only [bookInvB, BookInv, Bool.and_eq_true, List.all_eq_true, Bool.or_eq_true, bne_iff_ne, ne_eq,
     List.any_eq_true, beq_iff_eq, List.isPerm_iff]
